@@ -23,7 +23,9 @@ TPS = 1000000
 
 POOL = ["", "k", "k1", "None", "sekret", "ž", "a b", "0", "13", "c", "0c", "Mozilla/5.0 (X11)",
         # strings that differ only in white space at their edges, or in letter case
-        " ", " k", "k ", "k\n", "\tk", "\u00a0k", "K", "sekret ", "Sekret"]
+        " ", " k", "k ", "k\n", "\tk", "\u00a0k", "K", "sekret ", "Sekret",
+        # strings that differ only in characters outside Latin-1 (and one pair inside it)
+        "š", "heslo-ž", "heslo-š", "ключ-Иван", "ключ-Пётр", "😀", "😁", "é", "è"]
 
 
 def mk(T, t0, t1, s0, c0, s1, c1):
